@@ -18,6 +18,6 @@ for d in $LIST; do
   out=$(cd "$VS" && VERIF_REPO="$WT" ./vcheck run "$prop" --tier "$TIER" 2>&1); rc=$?
   sigs=$(echo "$out" | grep "^  sig" | head -3 | sed 's/^  sig=//' | tr '\n' ';')
   echo "$name | $prop | rc=$rc | $sigs"
-  if [ "$rc" = 2 ]; then echo "$out" | grep -v "^   " | tail -6 | cut -c1-300 | sed 's/^/    /'; fi
+  if [ "$rc" = 2 ]; then echo "$out" | grep -A12 "^HARNESS-ERROR" | cut -c1-300 | sed 's/^/    /'; echo "$out" | tail -2 | cut -c1-300 | sed 's/^/    /'; fi
   git -C "$WT" checkout -q -- . ; git -C "$WT" clean -qfd
 done
